@@ -93,3 +93,19 @@ pub fn trait_predict<X, Y, E: smartcore::api::Predictor<X, Y>>(e: &E, x: &X) -> 
 pub fn trait_fit<X, Y, P: Clone, E: smartcore::api::SupervisedEstimator<X, Y, P>>(x: &X, y: &Y, p: P) -> Result<E, smartcore::error::Failed> {
     <E as smartcore::api::SupervisedEstimator<X, Y, P>>::fit(x, y, p)
 }
+
+/// float widths that can also be serialised (for "fit, store, restore, then use" call sequences)
+pub trait SNum: RealNumber + serde::Serialize + serde::de::DeserializeOwned + Default + 'static {}
+impl SNum for f32 {}
+impl SNum for f64 {}
+
+/// a copy of `m` that went through a serialisation round trip (bincode, or JSON text)
+pub fn restored<M: serde::Serialize + serde::de::DeserializeOwned>(m: &M, json: bool) -> Result<M, String> {
+    if json {
+        let s = serde_json::to_string(m).map_err(|e| format!("serde_json::to_string: {}", e))?;
+        serde_json::from_str(&s).map_err(|e| format!("serde_json::from_str: {}", e))
+    } else {
+        let b = bincode::serialize(m).map_err(|e| format!("bincode::serialize: {}", e))?;
+        bincode::deserialize(&b).map_err(|e| format!("bincode::deserialize: {}", e))
+    }
+}
